@@ -2,21 +2,27 @@
 from __future__ import annotations
 
 import ast
+import copy
 import re
-from typing import Any
+from typing import Any, Iterator
 
 from jinja2 import nodes
 
 from .. import tplq
-from ..astutil import norm
+from ..astutil import Locals, call_name, cfg_of, enclosing_loop_body, names_in, norm, receivers, region, role_anon, short, stmt_of, where
+from ..cfg import ENTRY, EXIT
 from ..core import PKG, Report
 from ..jinja_interp import expr_text
 
 LEVEL = ("structural clauses that are necessary for the round trip (the behaviour itself - equality of run-time values - is not "
-         "decided): writers and readers of a model use the same wire-key expression, in a string context, over the same "
-         "property domain; every kind whose Python type differs from its JSON type defines both directions and converts; "
-         "additional properties are merged before the declared keys and from_dict keeps the remainder; to_dict builds a fresh "
-         "dict; Unset handling is by isinstance (shared with C10).")
+         "decided): writers and readers of a model use the same wire-key expression, in a string context, and together cover the "
+         "whole property domain; every kind whose Python type differs from its JSON type defines both directions and converts; "
+         "containers delegate both directions to their inner kind; a union member is decoded without fall-through only when no "
+         "alternative remains, members are tried in document order; imports and lazy imports of every property are collected "
+         "together; additional properties are merged before the declared keys and from_dict keeps the remainder; to_dict builds a "
+         "fresh dict; Unset handling is by isinstance (shared with C10).")
+
+REQ, OPT = "model.required_properties", "model.optional_properties"
 
 
 def run(rep: Report, ctx: Any) -> str:
@@ -24,9 +30,12 @@ def run(rep: Report, ctx: Any) -> str:
     jx = ctx.jinja
     it, ji = ctx.flow
     rep.rule("R02.1", "writer/reader key agreement: field_dict.update({...}), field_dict[...] =, d.pop(...) (both forms) use the same "
-                      "wire-key expression inside a \"...\" literal, the Python side is python_name everywhere, all iterate the same domain")
+                      "wire-key expression inside a \"...\" literal, the Python side is python_name everywhere; the writers together and "
+                      "the pops together cover required and optional properties (loop domain x guards incl. loop filters, as truth "
+                      "tables); every other loop over the model's properties iterates required + optional")
     rep.rule("R02.2", "both directions exist for every non-identity kind: if the Python type differs from the JSON type the template "
-                      "defines construct and transform; construct_function is routed through construct_template")
+                      "defines construct and transform; construct_function is routed through construct_template; list and union call "
+                      "construct / transform of the template imported for their inner property, with that inner property")
     rep.rule("R02.3", "plain JSON out: for non-identity kinds the value assigned on the present path is a conversion of the source, "
                       "never the bare source")
     rep.rule("R02.4", "additional properties: merged before the declared-key update; from_dict assigns the remainder of d")
@@ -37,14 +46,29 @@ def run(rep: Report, ctx: Any) -> str:
     rep.require(td, "_to_dict")
 
     # ---- R02.1 -----------------------------------------------------------------------------------------------------
-    # template-bound variables are canonical (sa/jinja_canon.py): the loop variable over the model's properties reads `DOM[*]`
-    dom = "(model.required_properties + model.optional_properties)"
-    pvars = {f"{dom}[*]", "model.optional_properties[*]", "model.required_properties[*]"}
+    # template-bound variables are canonical (sa/jinja_canon.py): the variable of `for x in ITER` reads `ITER[*]`, a set variable
+    # reads as its definition.  A loop over the model's properties is recognised by what it iterates (the set variable it may go
+    # through is replaced by its definition), its variable is `<text of its iterable>[*]`.
+    mdefs = _set_defs(mt)
+    dom = f"({REQ} + {OPT})"
+
+    def leaves(n: nodes.Node) -> set[str]:
+        n = _inline(n, mdefs)
+        return leaves(n.left) | leaves(n.right) if isinstance(n, nodes.Add) else {expr_text(n)}
+
+    prop_loops = [(f, leaves(f.iter)) for f in mt.tree.find_all(nodes.For)]
+    prop_loops = [(f, lv) for f, lv in prop_loops if any(REQ in x or OPT in x for x in lv)]
+    rep.floor("property_loops", len(prop_loops), 6)
+    loop_dom = {expr_text(f.iter): lv for f, lv in prop_loops}
+    pvars = {f"{t}[*]" for t in loop_dom}
 
     def strip_pv(t: str) -> str:
         for v in sorted(pvars, key=len, reverse=True):
             t = t.replace(v, "<p>")
         return t
+
+    def natom(t: str) -> str:
+        return _strip_parens(strip_pv(t))
 
     key_sites = []
     for e in ji.emissions.values():
@@ -65,8 +89,7 @@ def run(rep: Report, ctx: Any) -> str:
               "model.py.jinja::both-writers-and-reader", "a writer (to_dict) or the reader (from_dict pops) no longer keys by property.name",
               where=f"{PKG}/templates/model.py.jinja", lhs=sorted(places), rhs="_to_dict x2 + the d.pop(...) source")
     # the reader really pops the key: fragments 'd.pop("' + name + '")' (the variable holding them may have any name)
-    pops = [n for n in mt.tree.find_all(nodes.Assign) if isinstance(_flatten_add(n.node)[0], nodes.Const) and
-            str(_flatten_add(n.node)[0].value).startswith("d.pop(")]
+    pops = [n for n in mt.tree.find_all(nodes.Assign) if _is_pop(n)]
     rep.floor("pop_forms", len(pops), 2)
     for n in pops:
         txt = expr_text(n.node)
@@ -76,17 +99,44 @@ def run(rep: Report, ctx: Any) -> str:
         rep.check(shape, "R02.1", f"model.py.jinja::pop[{'optional' if 'UNSET' in txt else 'required'}]",
                   "from_dict does not pop the key written by to_dict", where=f"{PKG}/templates/model.py.jinja:{n.lineno}", lhs=txt,
                   rhs="'d.pop(\"' + property.name + '\"...)'")
-    # python side: python_name everywhere; same domain
-    loops = [(expr_text(f.iter), f) for f in mt.tree.find_all(nodes.For)]
-    prop_loops = [l for l in loops if "properties" in l[0] and "additional" not in l[0]]
-    rep.floor("property_loops", len(prop_loops), 6)
-    for txt, f in prop_loops:
-        ok = txt == dom or (txt == "model.optional_properties" and any(
-            isinstance(x, nodes.If) and expr_text(x.test) == "(not model.optional_properties[*].required)" for x in f.body))
+    # same domain.  required_properties holds exactly the properties with .required, optional_properties the others: a site inside a
+    # loop serves the values of `.required` its loop domain admits and its guards (if / elif / else / loop filter) allow.  The sites
+    # writing a wire key in to_dict must together serve both values, so must the pops of from_dict; a loop that neither writes nor
+    # pops a wire key (conversions, constructor keywords, declarations) must iterate the whole domain itself.
+    def served(fr: tplq.Frag) -> set[bool]:
+        lv = loop_dom.get(fr.loops[-1], set()) if fr.loops else set()
+        admits = ({True} if REQ in lv else set()) | ({False} if OPT in lv else set()) if lv <= {REQ, OPT} else set()
+        out: set[bool] = set()
+        for env in _emitted_envs(fr, natom):
+            out |= ({env["<p>.required"]} & admits) if "<p>.required" in env else admits
+        return out
+
+    writers = [fr for fr in tplq.frags(td.body) if fr.kind == "expr" and fr.loops and fr.text == f"{fr.loops[-1]}[*].name"]
+    readers = [fr for fr in _stmt_frags(mt.tree.body, (nodes.Assign,)) if _is_pop(fr.node) and fr.loops]
+    for what, sites, key in (("to_dict writes", writers, "_to_dict::writers-cover-domain"), ("from_dict pops", readers, "from_dict::pops-cover-domain")):
+        got: set[bool] = set()
+        for fr in sites:
+            got |= served(fr)
+        rep.check(got == {True, False}, "R02.1", f"model.py.jinja::{key}",
+                  f"{what} the wire key only for properties with required in {sorted(got)}: the others are written but not read, or the reverse",
+                  where=f"{PKG}/templates/model.py.jinja", lhs=sorted(got), rhs=[False, True])
+    # a pop without default raises KeyError when the key is absent: it may only serve required properties
+    for fr in readers:
+        if "UNSET" not in expr_text(fr.node.node):
+            rep.check(served(fr) <= {True}, "R02.1", "model.py.jinja::pop[required]::only-when-required",
+                      "a property that is not required is popped without a default: a valid instance that omits it makes from_dict raise KeyError",
+                      where=f"{PKG}/templates/model.py.jinja:{fr.line}", lhs=sorted(served(fr)), rhs=[True])
+    site_nodes = [fr.node for fr in writers + readers]
+    for f, lv in prop_loops:
+        txt = expr_text(_inline(f.iter, mdefs))
+        has_site = any(x is s for s in site_nodes for x in f.find_all(type(s)))
+        ok = lv == {REQ, OPT} or (bool(lv) and lv < {REQ, OPT} and has_site)
         rep.check(ok, "R02.1", f"model.py.jinja::domain[{txt}]@{_macro_of(mt, f)}",
                   "a loop over the model's properties iterates another domain than required + optional (a property would be written but "
                   "not read, or the reverse)", where=f"{PKG}/templates/model.py.jinja:{f.lineno}", lhs=txt, rhs=dom)
-    kw = [fr for fr in tplq.frags(mt.tree.body) if fr.kind == "expr" and fr.text == f"{dom}[*].python_name" and fr.loops == (dom,)]
+    # python side: python_name everywhere
+    kw = [fr for fr in tplq.frags(mt.tree.body) if fr.kind == "expr" and len(fr.loops) == 1 and loop_dom.get(fr.loops[0]) == {REQ, OPT}
+          and fr.text == f"{fr.loops[0]}[*].python_name"]
     rep.check(len(kw) >= 2, "R02.1", "model.py.jinja::constructor-keywords", "cls(...) is not called with python_name=python_name for every property",
               where=f"{PKG}/templates/model.py.jinja", lhs=len(kw), rhs=">= 2 holes in the keyword list")
 
@@ -132,12 +182,16 @@ def run(rep: Report, ctx: Any) -> str:
             rep.check(routed, "R02.2", f"{c.name}::construct-routed", "construct does not go through construct_template(construct_function, ...)",
                       where=f"{PKG}/templates/{ti.name}", lhs=None, rhs="construct_template(construct_function, property, source)")
     rep.floor("property_kinds", n_k, 16)
-    # list / union delegate to the inner template in both directions
+    # list / union delegate to the inner template in both directions: reachable from construct (transform) there is a call
+    # ALIAS.construct(X, ...) (ALIAS.transform(X, ...)) where ALIAS is the import of "property_templates/" + X.template and X is the
+    # inner property (property.inner_property / an element of property.inner_properties); the alias and X may be spelled anyhow
     for tn in ("list_property.py.jinja", "union_property.py.jinja"):
         ti = jx.templates.get("property_templates/" + tn)
-        txt = " ".join(expr_text(c2) for c2 in ti.tree.find_all(nodes.Call))
-        rep.check("inner_template.construct(" in txt and "inner_template.transform(" in txt, "R02.2", f"{tn}::delegates-both-directions",
-                  "a container no longer delegates construct and transform to its inner template", where=f"{PKG}/templates/{ti.name}")
+        rep.require(ti, tn)
+        got_d = {d: d in _delegated(ti, d) for d in ("construct", "transform")}
+        rep.check(all(got_d.values()), "R02.2", f"{tn}::delegates-both-directions",
+                  "a container no longer delegates construct and transform to its inner template", where=f"{PKG}/templates/{ti.name}",
+                  lhs=got_d, rhs="construct and transform of the inner property's template, called with the inner property")
 
     # ---- R02.4 / R02.5 ---------------------------------------------------------------------------------------------------------
     frs = list(tplq.frags(td.body))
@@ -165,19 +219,413 @@ def run(rep: Report, ctx: Any) -> str:
     rets = [f for f in frs if f.kind == "data" and "return field_dict" in f.text]
     rep.check(len(rets) == 1 and not rets[0].guards, "R02.5", "model.py.jinja::_to_dict::returns-field_dict", "to_dict does not return field_dict",
               where=f"{PKG}/templates/model.py.jinja")
-    # Unset handling by isinstance (shared with C10 R10.2)
+    # Unset handling by isinstance (shared with C10 R10.2): the text construct_template emits for a property that is not required, with
+    # every hole written as <its expression> (set variables replaced by their definitions, constant parts of a hole as text), decides
+    # between UNSET and construct_function by isinstance(X, Unset) on the very variable X that holds the source
     pm = jx.templates.get("property_templates/property_macros.py.jinja")
-    ct = "".join(f.text for f in tplq.macro_frags(pm, "construct_template") if f.kind == "data")
-    rep.check(bool(re.search(r"if isinstance\(_\s*,\s*Unset\)|if isinstance\(_,  Unset\)", ct.replace("{{ property.python_name }}", ""))) or
-              "isinstance(_" in ct and "Unset)" in ct, "R02.2", "construct_template::unset-by-isinstance",
+    rep.require(pm, "property_macros.py.jinja")
+    ctm = pm.macros.get("construct_template")
+    rep.require(ctm, "construct_template")
+    pdefs = _set_defs(pm)
+    cfr = list(tplq.frags(ctm.body))
+    cnames: list[str] = []
+    for fr in cfr:
+        for a in tplq.guard_atoms(fr):
+            if _strip_parens(a) not in cnames:
+                cnames.append(_strip_parens(a))
+    rep.require("property.required" in cnames, "construct_template decides on property.required")
+    arms = []
+    for env in tplq.assignments(cnames):
+        if env["property.required"]:
+            continue
+        arms.append("".join(_render(fr, pdefs) for fr in cfr if tplq.guard_holds(fr, {a: env[_strip_parens(a)] for a in tplq.guard_atoms(fr)})))
+    by_inst = bool(arms)
+    for arm in arms:
+        m = re.search(r"^[ \t]*if isinstance\((\S+?),\s*Unset\):[ \t]*\n[^\n]*=\s*UNSET\b", arm, re.M)
+        raw = m.group(1) if m else None
+        calls = [c for fr in cfr if fr.kind == "expr" for c in [fr.node, *fr.node.find_all(nodes.Call)] if isinstance(c, nodes.Call)
+                 and expr_text(c.node) == "construct_function" and len(c.args) >= 2 and _hole_text(c.args[1], pdefs) == raw]
+        by_inst = by_inst and m is not None and re.search(r"^[ \t]*" + re.escape(raw) + r"[ \t]*=[ \t]*<source>", arm, re.M) is not None and bool(calls)
+    rep.check(by_inst, "R02.2", "construct_template::unset-by-isinstance",
               "optional values are recognised as absent by something other than isinstance(..., Unset): present falsy values ({} / 0 / '') "
-              "would be decoded as UNSET", where=f"{PKG}/templates/{pm.name}", lhs=ct.strip()[:120], rhs="if isinstance(_x, Unset)")
+              "would be decoded as UNSET", where=f"{PKG}/templates/{pm.name}", lhs=(arms[0].strip()[:240] if arms else None),
+              rhs="X = <source> ... if isinstance(X, Unset): ... = UNSET / else: ... construct_function(property, X)")
     from .c15 import check_no_parent_mutation
 
     rep.rule("R02.6", "a composed (allOf) child never mutates the property objects it inherits: the parent's own decode/encode is unchanged")
     check_no_parent_mutation(rep, ctx, "R02.6")
-    rep.not_decided += ["that construct(transform(x)) == x on values (isoparse(x.isoformat()), union branch order, recursion)"]
+    rep.rule("R02.7", "union decode falls through: a member that has a type check is decoded in terminal form (no try/except around its "
+                      "construct) only when it is the last member and no pass-through member was seen before it")
+    _union_fallthrough(rep, jx)
+    rep.rule("R02.8", "union members are tried in document order: the list given to UnionProperty(inner_properties=...) is assembled in single "
+                      "passes (no second pass over the same sequence, i.e. no partition) and never sorted / reversed / made a set; the decode "
+                      "loop iterates property.inner_properties itself")
+    _member_order(rep, ix)
+    rep.rule("R02.9", "whatever collects a property's imports for a model module collects its lazy imports on the same paths (the model "
+                      "classes that the emitted decode/encode code names are imported lazily); a kind that forwards get_imports to its inner "
+                      "properties forwards get_lazy_imports too")
+    _imports_parity(rep, ix)
+    rep.not_decided += ["that construct(transform(x)) == x on values (isoparse(x.isoformat()), which of two overlapping union members accepts a "
+                        "value, recursion)", "a union member without a type check (const) is decoded in terminal form wherever it stands"]
     return LEVEL
+
+
+# ---- R02.7 ---------------------------------------------------------------------------------------------------------------------
+def _union_fallthrough(rep: Report, jx: Any) -> None:
+    ut = jx.templates.get("property_templates/union_property.py.jinja")
+    rep.require(ut, "union_property.py.jinja")
+    cm = ut.macros.get("construct")
+    rep.require(cm, "union construct")
+    udefs = _set_defs(ut)
+    loc = f"{PKG}/templates/{ut.name}"
+    mloops = [f for f in cm.find_all(nodes.For) if "inner_properties" in expr_text(_inline(f.iter, udefs))]
+    rep.require(mloops, "loop over the union's members in construct")
+    for f in mloops:
+        t = expr_text(_inline(f.iter, udefs))
+        rep.check(t == "property.inner_properties" and f.test is None, "R02.8", "union_property.py.jinja::construct::member-loop",
+                  "the decode loop does not iterate the members as they are listed", where=f"{loc}:{f.lineno}", lhs=t, rhs="property.inner_properties")
+    ml = mloops[0]
+    member = f"{expr_text(ml.iter)}[*]"
+    aliases = {a for a, x in _inner_aliases(cm, udefs).items() if x == member}
+    rep.require(aliases, "import of the member's template in union construct")
+    frs = list(tplq.frags(ml.body))
+
+    def is_decode(fr: tplq.Frag) -> bool:
+        return fr.kind == "expr" and any(isinstance(c, nodes.Call) and isinstance(c.node, nodes.Getattr) and c.node.attr == "construct" and
+                                         isinstance(c.node.node, nodes.Name) and c.node.node.name in aliases for c in [fr.node, *fr.node.find_all(nodes.Call)])
+
+    def whenever(a: tplq.Frag, b: tplq.Frag) -> bool:
+        return a.guards == b.guards[:len(a.guards)]   # a is emitted whenever b is
+
+    # the pass-through flag: the namespace attribute set to true where the member's template has no construct
+    flags = set()
+    for s in _stmt_frags(ml.body, (nodes.Assign,)):
+        a = s.node
+        if isinstance(a.target, nodes.NSRef) and isinstance(a.node, nodes.Const) and a.node.value is True:
+            envs = list(_emitted_envs(s, _strip_parens))
+            if envs and all(any(env.get(f"{al}.construct") is False for al in aliases) for env in envs):
+                flags.add(f"{a.target.name}.{a.target.attr}")
+    rep.require(len(flags) == 1, "the flag recording a member without construct (pass-through) in union construct")
+    flag = next(iter(flags))
+    n_dec = 0
+    for i, d in enumerate(frs):
+        if not is_decode(d):
+            continue
+        n_dec += 1
+        fenced = any(t.kind == "data" and re.search(r"^[ \t]*try:", t.text, re.M) and whenever(t, d) for t in frs[:i]) and \
+            any(e.kind == "data" and re.search(r"^[ \t]*except\b", e.text, re.M) and whenever(e, d) for e in frs[i + 1:])
+        if fenced:
+            continue
+        bad = None
+        for env in _emitted_envs(d, _strip_parens):
+            checked = any(env.get(f"{al}.check_type_for_construct", True) for al in aliases)
+            if checked and not (env.get("loop.last", False) and not env.get(flag, True)):
+                bad = env
+                break
+        rep.check(bad is None, "R02.7", "union_property.py.jinja::construct::terminal-decode",
+                  f"a member is decoded without try/except although another alternative may remain (e.g. {bad}): a value of a pass-through "
+                  "member listed before it makes from_dict raise instead of returning the value", where=f"{loc}:{d.line}",
+                  lhs=[g for g, _ in d.guards], rhs="no type check, or (loop.last and no pass-through member seen)")
+    rep.floor("union_member_decodes", n_dec, 1)
+
+
+# ---- R02.8 ---------------------------------------------------------------------------------------------------------------------
+_REORDER_CALLS = {"sorted", "set", "frozenset", "reversed"}
+_REORDER_METHODS = {"sort", "reverse", "insert"}
+
+
+def _own(fn: ast.AST) -> Iterator[ast.AST]:
+    """nodes of the function itself, not of the functions / classes nested in it"""
+    todo = list(ast.iter_child_nodes(fn))
+    while todo:
+        n = todo.pop()
+        yield n
+        if not isinstance(n, (ast.FunctionDef, ast.AsyncFunctionDef, ast.ClassDef, ast.Lambda)):
+            todo.extend(ast.iter_child_nodes(n))
+
+
+def _src(e: ast.AST) -> str:
+    while isinstance(e, ast.Call) and isinstance(e.func, ast.Name) and e.func.id in ("enumerate", "list", "tuple", "iter") and e.args:
+        e = e.args[0]
+    return norm(e)
+
+
+def _member_order(rep: Report, ix: Any) -> None:
+    up = ix.cls("UnionProperty")
+    build = up.methods.get("build")
+    rep.require(build, "UnionProperty.build")
+    scope = list(region(ix, build))
+    grew = True
+    while grew:   # closures of the region
+        grew = False
+        for h in ix.all_functions:
+            if h.parent is not None and h.parent in scope and h not in scope:
+                scope.append(h)
+                grew = True
+    by_name = {g.name: g for g in scope if g is not build}
+    seen: set[tuple[str, str]] = set()
+    viol: list[str] = []
+
+    def trace(g: Any, e: ast.AST | None) -> None:
+        if e is None:
+            return
+        comps: dict[str, int] = {}
+        for n in ast.walk(e):
+            if isinstance(n, ast.Call):
+                if isinstance(n.func, ast.Name) and n.func.id in _REORDER_CALLS:
+                    viol.append(f"{where(g, n)}: {n.func.id}(...) on the way to inner_properties")
+                if isinstance(n.func, ast.Attribute) and n.func.attr in _REORDER_METHODS:
+                    viol.append(f"{where(g, n)}: .{n.func.attr}(...) on the way to inner_properties")
+                h = by_name.get(call_name(n).rsplit(".", 1)[-1])
+                if h is not None and (h.qual, "<return>") not in seen:
+                    seen.add((h.qual, "<return>"))
+                    for r in _own(h.node):
+                        if isinstance(r, ast.Return):
+                            trace(h, r.value)
+            if isinstance(n, (ast.ListComp, ast.GeneratorExp)):
+                comps[_src(n.generators[0].iter)] = comps.get(_src(n.generators[0].iter), 0) + 1
+        for s, k in comps.items():
+            if k > 1:
+                viol.append(f"{where(g, e)}: {k} comprehensions over `{s}` are combined (a partition reorders the members)")
+        for nm in sorted(names_in(e)):
+            visit(g, nm)
+
+    def visit(g: Any, nm: str) -> None:
+        if (g.qual, nm) in seen:
+            return
+        seen.add((g.qual, nm))
+        own = list(_own(g.node))
+        own_ids = {id(n) for n in own}
+        ds = [d for d in Locals(g.node).defs.get(nm, []) if id(d[1]) in own_ids]
+        if not ds:
+            return   # a parameter / closure variable / global: an input of g
+        loops = [n for n in own if isinstance(n, (ast.For, ast.AsyncFor, ast.While))]
+
+        def outer_loop(x: ast.AST) -> ast.AST | None:
+            hits = [lp for lp in loops if any(y is x for y in ast.walk(lp))]
+            return next((lp for lp in hits if not any(lp is not o and any(y is lp for y in ast.walk(o)) for o in hits)), None)
+
+        def pass_of(x: ast.AST, v: ast.AST | None) -> tuple[int, str]:
+            if isinstance(v, (ast.ListComp, ast.GeneratorExp)):
+                return id(v), _src(v.generators[0].iter)
+            lp = outer_loop(x)
+            if lp is not None:
+                return id(lp), (_src(lp.iter) if isinstance(lp, (ast.For, ast.AsyncFor)) else norm(lp.test))
+            return id(x), f"<line {getattr(x, 'lineno', 0)}>"
+
+        passes: list[tuple[int, str]] = []
+        for kind, st, v in ds:
+            trace(g, v)
+            if kind.startswith("for") or "[" in kind or v is None:
+                continue   # an element of an iterable / of an unpacked result: not a list assembled here
+            if (isinstance(v, ast.List) and not v.elts) or (isinstance(v, ast.Call) and norm(v) == "list()"):
+                continue
+            passes.append(pass_of(st, v) if isinstance(v, (ast.ListComp, ast.GeneratorExp)) or kind == "aug" else (id(st), norm(v)))
+        for c in own:
+            if isinstance(c, ast.Call) and isinstance(c.func, ast.Attribute) and isinstance(c.func.value, ast.Name) and c.func.value.id == nm:
+                if c.func.attr in _REORDER_METHODS:
+                    viol.append(f"{where(g, c)}: .{c.func.attr}(...) on a list on the way to inner_properties")
+                elif c.func.attr in ("append", "extend"):
+                    for a in c.args:
+                        trace(g, a)
+                    passes.append(pass_of(c, c.args[0] if c.func.attr == "extend" and c.args and outer_loop(c) is None else None))
+        by_src: dict[str, set[int]] = {}
+        for pid, s in passes:
+            by_src.setdefault(s, set()).add(pid)
+        for s, ids in by_src.items():
+            if len(ids) > 1:
+                viol.append(f"{short(g)}: a list on the way to inner_properties is filled in {len(ids)} passes over `{s}` (a partition reorders the members)")
+
+    sites = [(g, k.value) for g in scope for c in _own(g.node) if isinstance(c, ast.Call) for k in c.keywords if k.arg == "inner_properties"]
+    rep.floor("union_member_list_sites", len(sites), 1)
+    for g, v in sites:
+        trace(g, v)
+    rep.check(not viol, "R02.8", "UnionProperty.build::member-order", "the members of a union are not kept in document order, so decoding tries "
+              f"a later (possibly more permissive) member first: {viol[:3]}", where=build.where, lhs=viol[:3], rhs="single passes, no reordering")
+
+
+# ---- R02.9 ---------------------------------------------------------------------------------------------------------------------
+def _imports_parity(rep: Report, ix: Any) -> None:
+    mp = ix.cls("ModelProperty")
+    cache: dict[str, Any] = {}
+    n_sites = 0
+    for f in ix.all_functions:
+        if f.module is not mp.module or f.name in ("get_imports", "get_lazy_imports"):
+            continue
+        own_ids = {id(n) for n in _own(f.node)}
+        eager = [(r, c) for r, c in receivers(f.node, "get_imports") if id(c) in own_ids and not r.startswith("super()")]
+        lazy = [(r, c) for r, c in receivers(f.node, "get_lazy_imports") if id(c) in own_ids]
+        if not eager:
+            continue
+        cfg = cfg_of(f, cache)
+        for r, c in eager:
+            n_sites += 1
+            a = stmt_of(f.node, c)
+            ok = any(_always_with(cfg, f.node, a, stmt_of(f.node, c2)) for r2, c2 in lazy if r2 == r)
+            rep.check(ok, "R02.9", f"{short(f)}::lazy-imports-with-imports[{role_anon(c.func.value, f.node)}]",
+                      f"the imports of `{r}` are collected but, on some path, not its lazy imports: a model class named by the emitted "
+                      "decode/encode code (inside a list or union) is never imported and from_dict / to_dict raise NameError",
+                      where(f, c), lhs=[where(f, c2) for r2, c2 in lazy if r2 == r], rhs="get_lazy_imports on every path that has get_imports")
+    rep.floor("model_import_sites", n_sites, 2)
+    # kinds that forward get_imports to inner properties forward get_lazy_imports to the same
+    for c in ix.property_classes():
+        gi, gl = c.methods.get("get_imports"), c.methods.get("get_lazy_imports")
+        if gi is None:
+            continue
+        fwd = sorted({role_anon(call.func.value, gi.node) for r, call in receivers(gi.node, "get_imports") if not r.startswith("super()")})
+        if not fwd:
+            continue
+        got = sorted({role_anon(call.func.value, gl.node) for r, call in receivers(gl.node, "get_lazy_imports") if not r.startswith("super()")}) if gl else []
+        rep.check(set(fwd) <= set(got), "R02.9", f"{c.name}::forwards-lazy-imports", "a container forwards get_imports to its inner properties "
+                  "but not get_lazy_imports: models inside it are never imported where from_dict / to_dict name them", gi.where, lhs=got, rhs=fwd)
+
+
+def _always_with(cfg: Any, fn: ast.AST, a: ast.stmt | None, b: ast.stmt | None) -> bool:
+    """every execution of statement a is accompanied by one of b: in the same statement, or b on every path to a (from the function's
+    entry and from the head of the loop a sits in), or b on every path from a (to the exit and back to that loop head)"""
+    if a is None or b is None:
+        return False
+    if a is b:
+        return True
+
+    def is_b(n: object) -> bool:
+        return n is b
+
+    lp = enclosing_loop_body(fn, a)
+    before = cfg.every_path_passes(ENTRY, a, is_b) and (lp is None or cfg.every_path_passes(lp, a, is_b))
+    after = cfg.every_path_passes(a, EXIT, is_b) and (lp is None or cfg.every_path_passes(a, lp, is_b))
+    return before or after
+
+
+# ---- template helpers -------------------------------------------------------------------------------------------------------------
+def _set_defs(ti: Any) -> dict[str, list[nodes.Node]]:
+    """definitions of the template's canonical set variables (their canonical name starts with `(`)"""
+    d: dict[str, list[nodes.Node]] = {}
+    for a in ti.tree.find_all(nodes.Assign):
+        if isinstance(a.target, nodes.Name) and a.target.name.startswith("("):
+            d.setdefault(a.target.name, []).append(a.node)
+    return d
+
+
+def _inline(n: Any, defs: dict[str, list[nodes.Node]], depth: int = 0) -> Any:
+    """copy of the expression in which every set variable with one definition is replaced by that definition"""
+    if isinstance(n, nodes.Name):
+        ds = defs.get(n.name)
+        if ds and depth < 6 and len({expr_text(x) for x in ds}) == 1:
+            return _inline(ds[0], defs, depth + 1)
+        return n
+    if not isinstance(n, nodes.Node):
+        return n
+    c = copy.copy(n)
+    for fld, v in n.iter_fields():
+        if isinstance(v, list):
+            setattr(c, fld, [_inline(x, defs, depth) for x in v])
+        elif isinstance(v, nodes.Node):
+            setattr(c, fld, _inline(v, defs, depth))
+    return c
+
+
+def _strip_parens(t: str) -> str:
+    """`(X)` -> `X` while the outer pair encloses the whole text (a set variable reads as its parenthesised definition)"""
+    while t.startswith("(") and t.endswith(")"):
+        depth = 0
+        for i, ch in enumerate(t):
+            depth += ch == "("
+            depth -= ch == ")"
+            if depth == 0 and i < len(t) - 1:
+                return t
+        t = t[1:-1]
+    return t
+
+
+def _emitted_envs(fr: tplq.Frag, natom: Any) -> Iterator[dict[str, bool]]:
+    """the assignments of the fragment's guard atoms under which it is emitted; atoms are identified up to natom (so that a set
+    variable and its definition, or the variables of two loops over the same domain, are one atom)"""
+    raw = tplq.guard_atoms(fr)
+    names: list[str] = []
+    for a in raw:
+        if natom(a) not in names:
+            names.append(natom(a))
+    for env in tplq.assignments(names):
+        if tplq.guard_holds(fr, {a: env[natom(a)] for a in raw}):
+            yield env
+
+
+def _stmt_frags(body: list[nodes.Node], types: tuple, guards: tuple = (), gnodes: tuple = (), loops: tuple = ()) -> Iterator[tplq.Frag]:
+    """like tplq.frags, for statement nodes of the given types (e.g. `set`) instead of output"""
+    for n in body:
+        if isinstance(n, types):
+            yield tplq.Frag("stmt", type(n).__name__, n.lineno, guards, gnodes, loops, n)
+        if isinstance(n, nodes.If):
+            t = expr_text(n.test)
+            yield from _stmt_frags(n.body, types, guards + ((t, True),), gnodes + (n.test,), loops)
+            neg, gn = guards + ((t, False),), gnodes + (n.test,)
+            for el in n.elif_:
+                t2 = expr_text(el.test)
+                yield from _stmt_frags(el.body, types, neg + ((t2, True),), gn + (el.test,), loops)
+                neg, gn = neg + ((t2, False),), gn + (el.test,)
+            if n.else_:
+                yield from _stmt_frags(n.else_, types, neg, gn, loops)
+        elif isinstance(n, nodes.For):
+            g2, n2 = (guards + ((expr_text(n.test), True),), gnodes + (n.test,)) if n.test is not None else (guards, gnodes)
+            yield from _stmt_frags(n.body, types, g2, n2, loops + (expr_text(n.iter),))
+            if n.else_:
+                yield from _stmt_frags(n.else_, types, guards, gnodes, loops)
+        elif isinstance(n, (nodes.With, nodes.Scope, nodes.CallBlock, nodes.FilterBlock, nodes.AssignBlock)):
+            yield from _stmt_frags(getattr(n, "body", []), types, guards, gnodes, loops)
+
+
+def _is_pop(n: nodes.Node) -> bool:
+    first = _flatten_add(n.node)[0] if isinstance(n, nodes.Assign) else None
+    return isinstance(first, nodes.Const) and str(first.value).startswith("d.pop(")
+
+
+def _hole_text(n: nodes.Node, defs: dict[str, list[nodes.Node]]) -> str:
+    """what an output expression prints: constant parts as text, everything else as <expression>"""
+    return "".join(str(p.value) if isinstance(p, nodes.Const) else f"<{expr_text(p)}>" for p in _flatten_add(_inline(n, defs)))
+
+
+def _render(fr: tplq.Frag, defs: dict[str, list[nodes.Node]]) -> str:
+    return fr.text if fr.kind == "data" else _hole_text(fr.node, defs)
+
+
+def _macro_region(ti: Any, name: str) -> list[nodes.Macro]:
+    """the macro and the macros of the same template it calls (transitively)"""
+    seen: list[str] = []
+    todo = [name]
+    while todo:
+        m = todo.pop()
+        if m in seen or m not in ti.macros:
+            continue
+        seen.append(m)
+        todo += [c.node.name for c in ti.macros[m].find_all(nodes.Call) if isinstance(c.node, nodes.Name)]
+    return [ti.macros[m] for m in seen]
+
+
+def _inner_aliases(m: nodes.Macro, defs: dict[str, list[nodes.Node]]) -> dict[str, str]:
+    """{alias: text of X} for every `{% import "property_templates/" + X.template as alias %}` of the macro"""
+    out: dict[str, str] = {}
+    for imp in m.find_all(nodes.Import):
+        parts = _flatten_add(_inline(imp.template, defs))
+        if len(parts) == 2 and isinstance(parts[0], nodes.Const) and str(parts[0].value).endswith("property_templates/") and \
+                isinstance(parts[1], nodes.Getattr) and parts[1].attr == "template":
+            out[imp.target] = expr_text(parts[1].node)
+    return out
+
+
+def _delegated(ti: Any, macro: str) -> set[str]:
+    """the macros of the inner property's template that are called with the inner property, reachable from `macro`"""
+    defs = _set_defs(ti)
+    got: set[str] = set()
+    for m in _macro_region(ti, macro):
+        al = _inner_aliases(m, defs)
+        for c in m.find_all(nodes.Call):
+            if isinstance(c.node, nodes.Getattr) and isinstance(c.node.node, nodes.Name) and c.node.node.name in al:
+                x = al[c.node.node.name]
+                first = c.args[0] if c.args else next((k.value for k in c.kwargs if k.key == "property"), None)
+                if first is not None and expr_text(_inline(first, defs)) == x and x.startswith("property.inner_propert"):
+                    got.add(c.node.attr)
+    return got
 
 
 def _flatten_add(n: Any) -> list[Any]:
